@@ -106,6 +106,10 @@ func (x *Exec) callStatic1(bc *blockCtx, in ssa.Instruction, f *ssa.Function, bi
 	if r, ok := x.modelCall(bc, in, name, f, args); ok {
 		return r
 	}
+	if x.isOpaque(name) {
+		x.note("opaque in this lemma (uninterpreted function of its arguments; pointer arguments stand for their unmodified pointees): " + name)
+		return x.pureFuncApp(&CEnv{x: x, st: bc.st, old: bc.st, guard: bc.reach, pkg: fnPkg(f), depth: 3}, f, &FuncContract{Name: name}, args)
+	}
 	fc := x.prog.Contracts.Funcs[name]
 	if fc != nil && x.rootC != nil && x.rootC.InlineCallees[name] {
 		fc = nil
